@@ -217,7 +217,7 @@ func TestC15Big(t *testing.T) {
 			// one batch of several large entries whose frames total more than MaxEntrySize
 			c.Sizes = []int{24 << 20, 24<<20 + 5, 24<<20 - 3}
 			c.Pre = rapid.IntRange(0, 1).Draw(t, "pre")
-			c.After = 1
+			c.After = rapid.IntRange(0, 1).Draw(t, "after") // 0: the big batch is the last commit of the tail at reopen
 			return c
 		}
 		switch pos {
@@ -229,7 +229,7 @@ func TestC15Big(t *testing.T) {
 			c.Sizes = []int{segment.MaxEntrySize + d, 40}
 		}
 		c.Pre = rapid.IntRange(0, 1).Draw(t, "pre")
-		c.After = 1
+		c.After = rapid.IntRange(0, 1).Draw(t, "after")
 		return c
 	}, runSize)
 }
